@@ -202,6 +202,16 @@ def gen_cases(rng, tier):
                 lp, lq = rng.choice([0, 1, 2, 3]), rng.choice([0, 1, 2])
             seq.append([[enc_sv(rng.choice(XS)) for _ in range(lp)], [enc_sv(rng.choice(YS)) for _ in range(lq)]])
         cases.append({"in": [8, rng.choice([0, 1]), rng.choice([0, 1]), seq], "kind": "mixed-literal-execute", "model": False})
+    #  5: columns whose type has a BIND PROCESSOR (TypeDecorator, DateTime): one cached statement re-executed
+    #     with lists of growing / shrinking lengths (also empty); every element must be converted
+    for _ in range(300 if tier == "thorough" else 60):
+        col = rng.choice([0, 1])
+        dom = ["a", "b", "c", "d", None] if col == 0 else [1, 2, 3, 4, None]
+        lens = [rng.choice([0, 1, 1, 2, 3, 4, 6]) for _ in range(rng.randint(3, 6))]
+        if rng.random() < 0.5:
+            lens.sort()
+        seq = [[enc_sv(rng.choice(dom)) for _ in range(n)] for n in lens]
+        cases.append({"in": [5, col, rng.choice([0, 1]), rng.choice([0, 1]), seq], "kind": "bind-processor-rebind", "model": False})
     #  7: ONE expanding bindparam used by an IN and a NOT IN
     for vals in ([], [1], [None], [1, 2]):
         for order in (0, 1):
@@ -225,7 +235,7 @@ def gen_cases(rng, tier):
 
 
 def nontrivial(c):
-    return c["in"][0] >= 6 or len(c["in"][6]) >= 1
+    return c["in"][0] >= 5 or len(c["in"][6]) >= 1
 
 
 # ------------------------------------------------------------------ implementation side
@@ -517,7 +527,60 @@ def _impl_extra(c):
     return [_ids_raw(es.statement, args)]
 
 
+PROC_ROWS = [(1, "a", 1), (2, "b", 2), (3, "c", 3), (4, None, None), (5, "d", 4), (6, "a", 2)]
+
+
+def _impl_processors(c):
+    """typed columns with bind processors, one engine (compiled cache on), a sequence of list lengths"""
+    import datetime
+
+    from sqlalchemy import Column, DateTime, Integer, MetaData, String, Table, bindparam, create_engine, exc, select
+    from sqlalchemy.types import TypeDecorator
+
+    if "proc" not in _S:
+        class Code(TypeDecorator):
+            impl = String
+            cache_ok = True
+
+            def process_bind_param(self, value, dialect):
+                return None if value is None else "k:" + value
+
+            def process_result_value(self, value, dialect):
+                return None if value is None else value[2:]
+
+        md = MetaData()
+        _S["proc"] = (md, Table("tp", md, Column("id", Integer, primary_key=True), Column("code", Code), Column("ts", DateTime)))
+    md, tp = _S["proc"]
+    day = lambda n: None if n is None else datetime.datetime(2020, 1, n)
+    _, col, neg, shared, seq = c["in"]
+    engine = create_engine("sqlite://")
+    md.create_all(engine)
+    with engine.begin() as conn:
+        conn.execute(tp.insert(), [dict(id=i, code=code, ts=day(n)) for i, code, n in PROC_ROWS])
+    column = tp.c.code if col == 0 else tp.c.ts
+    out = []
+    bp = bindparam("q", expanding=True)
+    shared_stmt = select(tp.c.id).where(column.not_in(bp) if neg else column.in_(bp)).order_by(tp.c.id)
+    with engine.connect() as conn:
+        for l in seq:
+            vals = [dec_sv(v) for v in l]
+            if col == 1:
+                vals = [day(v) for v in vals]
+            try:
+                if shared:      # one statement object, re-executed with a new list
+                    out.append([r[0] for r in conn.execute(shared_stmt, {"q": vals})])
+                else:           # an equal statement built again: same cache key
+                    stmt = select(tp.c.id).where(column.not_in(vals) if neg else column.in_(vals)).order_by(tp.c.id)
+                    out.append([r[0] for r in conn.execute(stmt)])
+            except (exc.StatementError, TypeError) as e:
+                out.append([-1])
+    engine.dispose()
+    return out
+
+
 def impl(c):
+    if c["in"][0] == 5:
+        return _impl_processors(c)
     if c["in"][0] >= 6:
         return _impl_extra(c)
     way, d, lhs, expr, pos, mode, lists, rows = c["in"]
@@ -664,7 +727,24 @@ def _oracle_extra(c, obs):
     return None
 
 
+def _oracle_processors(c, obs):
+    _, col, neg, shared, seq = c["in"]
+    for k, l in enumerate(seq):
+        vals = [dec_sv(v) for v in l]
+        want = []
+        for rid, code, n in PROC_ROWS:
+            t = _in3(code if col == 0 else n, vals)
+            if (_not3(t) if neg else t) == 1:
+                want.append(rid)
+        if obs[k] != want:
+            return "execution %d of a cached statement (%s column, lengths so far %s): %sIN %r returned ids %s, OR-of-equalities gives %s" % (
+                k, "TypeDecorator" if col == 0 else "DateTime", [len(x) for x in seq[: k + 1]], "NOT " if neg else "", vals, obs[k], want)
+    return None
+
+
 def oracle(c, obs):
+    if c["in"][0] == 5:
+        return _oracle_processors(c, obs)
     if c["in"][0] >= 6:
         return _oracle_extra(c, obs)
     way, d, lhs, expr, pos, mode, lists, rows = c["in"]
@@ -696,7 +776,7 @@ def match_finding(c, what):
         return "C07-shared-expanding-param-expand-op" if (c["in"][2] == 1 and not c["in"][3]) else None
     if c["in"][0] == 6:
         return "C07-empty-in-bind-expression" if not c["in"][3] else None
-    if c["in"][0] >= 6:
+    if c["in"][0] >= 5:
         return None
     way, d, lhs, expr, pos, mode, lists, rows = c["in"]
     if expr[0] == 1 and lhs[0] == 1:
